@@ -1206,6 +1206,11 @@ class Engine:
             raise EngineError("rstrip(chars)")
         return SStr(self.c.rstrip(s.t))
 
+    def m_SStr_lstrip(self, path, s, e):
+        if e.args:
+            raise EngineError("lstrip(chars)")
+        return SStr(self.c.lstrip(s.t))
+
     def m_SStr_strip(self, path, s, e):
         if e.args:
             raise EngineError("strip(chars)")
